@@ -163,9 +163,9 @@ func c14Known(cdc *cdcCodec, s []byte, seg types.HashSegmentMap, obs, msg string
 		return "KF-C14-1", "length prefix larger than the remaining input reaches make(): " + rej.String()
 	}
 	if isMake {
-		for _, lax := range []string{"workitem", "storage", "operand"} {
-			if _, lr := cdcRefDecode(cdc, s, seg, lax); lr != nil && lr.Reason == typegen.RCountTooBig {
-				return "KF-C14-1", "length prefix larger than the remaining input reaches make(), on the byte positions the implementation parses because of decoder defect '" + lax + "' (KF-C11-2/5/7): " + lr.String()
+		for _, lax := range []string{"impl", "workitem", "storage", "operand"} {
+			if _, lr := cdcRefDecode(cdc, s, seg, lax); lr != nil && lr.Reason == typegen.RCountTooBig && name != "Ancestry" && !strings.HasSuffix(lr.Path, ".Ancestry") {
+				return "KF-C14-1", "length prefix larger than the remaining input reaches make(), at the position reached under the implementation's own (tolerant) grammar, mode '" + lax + "': " + lr.String()
 			}
 		}
 	}
